@@ -331,6 +331,13 @@ def _(vm, a, ci):
             if m != 'trim_start_matches':
                 while hi > lo and _match_at(vm, items, hi - 1, pk, pv) is not None: hi -= 1
         return _view(s, lo, hi)
+    if m == 'matches':
+        out = []; i = 0
+        while i < n:
+            k = _match_at(vm, items, i, pk, pv)
+            if k is not None and k > 0: out.append(_view(s, i, i + k)); i += k
+            else: i += 1
+        return It('list', out, 0)
     if m == 'split_once':
         for i in range(n):
             k = _match_at(vm, items, i, pk, pv)
